@@ -65,4 +65,48 @@ theorem init_with_seed_prefix (gen : UInt64 → List α) (n k d : Nat) (seed : U
 example : initRows 2 3 [1, 2, 3, 4, 5, 6, 7] = [[1, 2, 3], [4, 5, 6]] := by decide
 example : initRows 3 0 [1, 2] = [[], [], []] := by decide
 
+/-- **each variate is used exactly once, in order**: concatenating the rows gives back the first `n·d` variates of the stream —
+    nothing is skipped, repeated or reordered, so the entries inherit independence and the marginal law of the stream. -/
+theorem init_flatten (n d : Nat) (s : List α) : (initRows n d s).flatten = s.take (n * d) := by
+  induction n generalizing s with
+  | zero => simp [initRows]
+  | succ n ih =>
+    simp only [initRows, List.flatten_cons, ih]
+    rw [Nat.succ_mul, Nat.add_comm (n * d) d, List.take_add]
+
+/-- entry `(i, j)` is variate `i·d + j` of the stream. -/
+theorem init_entry (n d : Nat) (s : List α) (i j : Nat) (hi : i < n) (hj : j < d) :
+    ((initRows n d s)[i]'(by rw [init_length]; exact hi))[j]? = s[i * d + j]? := by
+  rw [init_row n d s i hi, List.getElem?_take, if_pos hj, List.getElem?_drop]
+
+/-- distinct cells read distinct stream positions (no variate is shared between two entries). -/
+theorem init_cell_injective (d i j i' j' : Nat) (hj : j < d) (hj' : j' < d) (h : i * d + j = i' * d + j') :
+    i = i' ∧ j = j' := by
+  have h1 : (i * d + j) / d = i := by
+    rw [Nat.mul_comm, Nat.mul_add_div (by omega), Nat.div_eq_of_lt hj, Nat.add_zero]
+  have h2 : (i' * d + j') / d = i' := by
+    rw [Nat.mul_comm, Nat.mul_add_div (by omega), Nat.div_eq_of_lt hj', Nat.add_zero]
+  have hi : i = i' := by rw [← h1, ← h2, h]
+  subst hi
+  exact ⟨rfl, by omega⟩
+
+/-- the output depends on the stream only through its first `n·d` variates (what a larger request draws later cannot matter). -/
+theorem init_depends_on_prefix (n d : Nat) (s t : List α) (h : s.take (n * d) = t.take (n * d)) :
+    initRows n d s = initRows n d t := by
+  induction n generalizing s t with
+  | zero => rfl
+  | succ n ih =>
+    have hd : (n + 1) * d = d + n * d := by rw [Nat.succ_mul, Nat.add_comm]
+    rw [hd] at h
+    simp only [initRows]
+    have h1 : s.take d = t.take d := by
+      have := congrArg (List.take d) h
+      simpa [List.take_take] using this
+    have h2 : (s.drop d).take (n * d) = (t.drop d).take (n * d) := by
+      have := congrArg (List.drop d) h
+      simpa [List.drop_take] using this
+    rw [h1, ih _ _ h2]
+
+example : (initRows 2 3 [1, 2, 3, 4, 5, 6, 7]).flatten = [1, 2, 3, 4, 5, 6] := by decide
+
 end MiniMcmcVerif.Init
